@@ -242,7 +242,7 @@ type Mismatch struct {
 	Kind  string   `json:"kind"`
 	API   string   `json:"api"`
 	Emb   Emb      `json:"emb"`
-	Beh   Beh      `json:"beh"`
+	Beh   *Beh     `json:"beh,omitempty"`
 	Rules []string `json:"rules"`
 	Fam   string   `json:"fam"`
 	V     int      `json:"v"`
@@ -298,7 +298,7 @@ func checkAll(api string, m matcher, e *Emb, b *Beh, rules []string, modes []int
 		}
 		if got != fmt.Sprint(want) {
 			if atomic.AddInt64(&nMis, 1) <= int64(job.MaxMismatch) {
-				vh.Emit(Mismatch{"mismatch", api, *e, *b, rules, fam, v, a.String(), got, want})
+				vh.Emit(Mismatch{"mismatch", api, *e, b, rules, fam, v, a.String(), got, want})
 			}
 		}
 	}
